@@ -448,6 +448,15 @@ func (o *baseDynamicObject) proto() *Object {
 }
 
 func (o *baseDynamicObject) setProto(proto *Object, throw bool) bool {
+	for p := proto; p != nil; p = p.self.proto() {
+		if p == o.val {
+			typeErrorResult(throw, "Cyclic __proto__ value")
+			return false
+		}
+		if _, ok := p.self.(*proxyObject); ok {
+			break
+		}
+	}
 	o.prototype = proto
 	return true
 }
